@@ -30,7 +30,7 @@ def readme():
                 ", ".join("%s: %s" % (k, "/".join(v)) for k, v in m["detected_by"].items()) or "NOT DETECTED",
                 "first try" if m["history"].startswith("detected by the quick") else
                 "not reported: outside the property's quantifier / documented contract (see meta.json)" if not m["detected"] else
-                "by another property's check (see meta.json)" if m["history"].startswith("not a C") or m["history"].startswith("NOT reported by C01") else
+                "by another property's check (see meta.json)" if m["history"].startswith("not a C") or m["history"].startswith("NOT reported by C01") or (m["history"].startswith("not reported by C") and "as it stood" in m["history"]) else
                 "after strengthening (see meta.json)"))
     n = len(rows); late = sum("after strengthening" in r for r in rows)
     out = sum("not reported:" in r for r in rows)
